@@ -83,6 +83,42 @@ def groups(L, action="{ }", fixed_only=False, prefix="T", quick=True):
     return out
 
 
+def or_into_eof_probe(args):
+    """A '|' action in front of an <<EOF>> rule: the rule falls into the EOF action's code, and its own set-up (beginning-of-line
+    state included) must still happen - directed probe for every back end and table family (round-7 seed C06-r7m3; under --emit=c99
+    the construct did not even compile on the unchanged tree)."""
+    import os, shutil, subprocess
+    flex_exe, api, tb, incdir = args
+    wd = H.mkscratch("c06e")
+    try:
+        ys = "" if api == "nr" else "yyscanner"
+        opts = "noyywrap" + (" reentrant" if api == "r" else "") + (' emit="c99"' if api == "c99" else "")
+        if api == "nr":
+            main = "int main(void){ int t; yy_scan_string(\"end\\nx yend\\nzx\"); while ((t = yylex()) > 0) printf(\"%d \", t); printf(\"n=%d\\n\", n_eof); return 0; }"
+        else:
+            main = ("int main(void){ int t; yyscan_t s; yylex_init(&s); yy_scan_string(\"end\\nx yend\\nzx\", s); while ((t = yylex(s)) > 0) printf(\"%d \", t);"
+                    " printf(\"n=%d\\n\", n_eof); yylex_destroy(s); return 0; }")
+        spec = ("%%option %s\n%%{\n#include <stdio.h>\nstatic int n_eof;\n%%}\n%%%%\nend\\n  |\n<<EOF>>  { if (++n_eof == 3) return 0; }\n^x  return 1;\nx  return 2;\n"
+                "^z  return 3;\n.|\\n  ;\n%%%%\n%s\n" % (opts, main))
+        open(os.path.join(wd, "e.l"), "w").write(spec)
+        p = subprocess.run([flex_exe, tb, "-o", "e.c", "e.l"], cwd=wd, env=H.ENV, stdin=subprocess.DEVNULL, stdout=subprocess.PIPE, stderr=subprocess.PIPE, timeout=60)
+        if p.returncode != 0:
+            return {"viol": "flex failed: " + p.stderr.decode("latin-1")[-300:], "spec": spec}
+        c = subprocess.run(["gcc", "-w", "-I" + incdir, "-o", "e.exe", "e.c"], cwd=wd, stdout=subprocess.PIPE, stderr=subprocess.PIPE, timeout=120)
+        if c.returncode != 0:
+            return {"viol": "the scanner does not compile: " + c.stderr.decode("latin-1")[-300:], "spec": spec}
+        r = subprocess.run(["./e.exe"], cwd=wd, stdout=subprocess.PIPE, stderr=subprocess.PIPE, timeout=20)
+        out = r.stdout.decode("latin-1").strip()
+        # "end\n" -> EOF action (1); "x" at line start -> 1; " y" ; "end\n" -> EOF action (2); "z" at line start -> 3; "x" mid-line -> 2; real EOF (3)
+        if out != "1 3 2 n=3":
+            return {"viol": "printed %r, expected '1 3 2 n=3' (rc=%s %s)" % (out, r.returncode, r.stderr.decode("latin-1")[-100:]), "spec": spec}
+        return {"viol": None}
+    except subprocess.TimeoutExpired:
+        return {"viol": "the scanner did not finish within 20 s", "spec": spec}
+    finally:
+        shutil.rmtree(wd, ignore_errors=True)
+
+
 def run(tier):
     ck = Check("C06", tier, "model_checking")
     ck.flex()
@@ -123,6 +159,16 @@ def run(tier):
     sb = [H.OP_SETBOL]
     J("setbol", groups(L - 1, H.ops_action(sb), quick=True), {"VF_OPMASK": H.opmask(*sb), "VF_BUDGET_DEFAULT": 1, "VF_BUDGET_TOTAL": 1})
 
+    fx = ck.flex()
+    neof = 0
+    for job, r in pmap(or_into_eof_probe, [(fx.exe, api, tb, fx.incdir) for api in ("nr", "r", "c99") for tb in ("-Cem", "-Cf", "-CFe", "-C")], check=ck):
+        if "worker_exception" in r:
+            ck.broken.append("'|' into <<EOF>> probe failed: %s" % r["worker_exception"])
+            continue
+        neof += 1
+        if r["viol"]:
+            ck.violation("C06:or-into-eof:%s" % job[1], "'|' action falling into an <<EOF>> rule (%s %s): %s" % (job[1], job[2], r["viol"]), files={"e.l": r.get("spec", "")})
+    ck.cov["or_into_eof_probes"] = neof
     tot = dict(executions=0, tokens=0, choice_points=0, nontrivial=0, inputs=0, horizons=0, ref_states=0, ref_edges=0, ref_edges_walked=0)
     ngroups = dangerous = 0
     for job, res in pmap(H.run_groups_job, jobs, check=ck):
